@@ -380,6 +380,9 @@ def a5_application_discipline(ctx, rule_id: str = "A5", only: Optional[Set[str]]
                 ctx.violation(rule_id, c, f"strategy application `{norm(c)}` is outside any StrategyDoesNotApply handler: a strategy that does not apply aborts the run instead of being skipped")
             elif _handler_records(h):
                 ctx.violation(rule_id, h, "the StrategyDoesNotApply handler yields/records something: a rule is produced for a class the strategy does not apply to")
+            elif not _handler_is_per_item(f, c, h, x):
+                ctx.violation(rule_id, h, f"one StrategyDoesNotApply handler covers the whole loop over `{x}`: the first strategy (or factory-made rule) that does not apply "
+                              "ends the loop, and the ones after it -- possibly the one that made the rule being looked for -- are never tried")
             else:
                 ctx.ok(rule_id, f"{m.qualname}: `{norm(c)}` applied under a StrategyDoesNotApply handler that skips")
         # (b) first touch of .children of a rule that may come ready-made from a factory
@@ -396,7 +399,10 @@ def a5_application_discipline(ctx, rule_id: str = "A5", only: Optional[Set[str]]
                 continue
             first = touches[0]
             h = C.catching_handler(f, first, "StrategyDoesNotApply")
-            if h is not None and not _handler_records(h):
+            if h is not None and not _handler_records(h) and not _handler_is_per_item(f, first, h, rvn):
+                ctx.violation(rule_id, h, f"one StrategyDoesNotApply handler covers the whole loop that produces `{rvn}`: the first rule that does not apply ends the loop and the "
+                              "remaining strategies / rules are never tried")
+            elif h is not None and not _handler_records(h):
                 ctx.ok(rule_id, f"{m.qualname}: first access of {rvn}.children is under a StrategyDoesNotApply handler")
                 # later touches must be dominated by the first or handled themselves
                 for t in touches[1:]:
@@ -408,6 +414,32 @@ def a5_application_discipline(ctx, rule_id: str = "A5", only: Optional[Set[str]]
                               "does not apply aborts instead of being skipped")
         if mname == "_rules_from_strategy" and n_app < 2:
             ctx.floor(rule_id, 99)
+
+
+def _handler_is_per_item(f, node, h: ast.ExceptHandler, var: str) -> bool:
+    """The try that h belongs to lies inside the innermost loop that binds `var` (or binds the
+    name `var` was derived from in that loop): failing for one item skips that item only."""
+    tr = getattr(h, "_parent", None)
+    # a comprehension that binds `var` between the node and the try: the try is around all items
+    cur = getattr(node, "_parent", None)
+    while cur is not None and cur is not tr:
+        if isinstance(cur, (ast.ListComp, ast.SetComp, ast.DictComp, ast.GeneratorExp)):
+            if any(isinstance(x, ast.Name) and x.id == var for g in cur.generators for x in ast.walk(g.target)):
+                return False
+        cur = getattr(cur, "_parent", None)
+    loops = C.enclosing_loops(f, node)
+    for lp in loops:
+        if isinstance(lp, ast.For):
+            bound = {x.id for x in ast.walk(lp.target) if isinstance(x, ast.Name)}
+            derived = var in bound
+            if not derived:
+                for d in D.definitions(f).get(var, []):
+                    if d[1] is not None and any(isinstance(x, ast.Name) and x.id in bound for x in ast.walk(d[1])) and any(d[0] is y for y in ast.walk(lp)):
+                        derived = True
+            if derived:
+                # is the Try inside this loop?
+                return any(tr is y for y in ast.walk(lp))
+    return True
 
 
 def _handler_records(h: ast.ExceptHandler) -> bool:
